@@ -424,6 +424,7 @@ fn authenticate(run: &mut Run, req: &Value) -> Value {
 }
 
 fn judge_authenticate(run: &mut Run, p: &Prepared, c: &AuthenticatedPublicKeyCredential, extra: Option<&Value>) -> Value {
+    run.learn_missing_pubkeys();
     let mut d = Run::end_default();
     d["ok"] = json!(true);
     let bytes: &[u8] = &c.response.authenticator_data;
